@@ -85,6 +85,9 @@ type wireCase struct {
 	Ext    int   `json:"ext"`
 	Padded *wMsg `json:"padded"`
 	Plen   int   `json:"plen"`
+
+	real        []byte
+	realDiffers string
 }
 
 func nameStr(n [][]int) string {
@@ -247,11 +250,14 @@ func checkWireCase(c *wireCase) (diff string) {
 	spec := ib(c.Bytes)
 	if canEncode {
 		if got := want.Bytes(); !bytes.Equal(got, spec) {
+			// not the plain encoding: it may still be a valid one (e.g. with name compression). The specification's
+			// decoder decides: the bytes are handed back to TLC (DecMsg(real) = Semi(m)), see bin/props/c13.py
 			k := 0
 			for k < len(got) && k < len(spec) && got[k] == spec[k] {
 				k++
 			}
-			return fmt.Sprintf("Message.Bytes() differs from the RFC encoding at offset %d: got %x, want %x", k, got[k:min(len(got), k+12)], spec[k:min(len(spec), k+12)])
+			c.realDiffers = fmt.Sprintf("Message.Bytes() differs from the plain RFC encoding at offset %d: got %x, plain %x", k, got[k:min(len(got), k+12)], spec[k:min(len(spec), k+12)])
+			c.real = got
 		}
 	}
 	for which, b := range map[string][]byte{"plain": spec, "compressed": ib(c.Cbytes)} {
@@ -357,6 +363,12 @@ func TestDnsWireCases(t *testing.T) {
 			if bad <= 40 {
 				w.Write(Ev{"idx": i, "diff": d, "m": c.M, "bytes": fmt.Sprintf("%x", ib(c.Bytes))})
 			}
+		} else if c.real != nil {
+			ints := make([]int, len(c.real))
+			for k, b := range c.real {
+				ints[k] = int(b)
+			}
+			w.Write(Ev{"idx": i, "redecode": true, "note": c.realDiffers, "real": ints})
 		}
 	}
 	w.Write(Ev{"summary": true, "cases": len(cases), "bad": bad})
